@@ -74,12 +74,17 @@ type c18Case struct {
 	DirTime []string  `json:"dir_mtime_changed,omitempty"` // directories of which only the mtime changed
 	After   []c18Node `json:"-"`
 	Moat    string    `json:"-"`
+	Nodes   string    `json:"-"` // what ArchiveDecoder.Next yields: "<end|error> k:hexname,..."
 }
 
 type c18Node struct {
-	P string `json:"p"` // absolute path
-	K string `json:"k"` // d f l v
-	S string `json:"s"` // hex content / target
+	P     string `json:"p"` // absolute path
+	K     string `json:"k"` // d f l v
+	S     string `json:"s"` // hex content / target
+	Perm  uint32 `json:"perm"`
+	UID   uint32 `json:"uid"`
+	GID   uint32 `json:"gid"`
+	MTime int64  `json:"mtime"`
 }
 
 const (
@@ -316,6 +321,37 @@ func c18Under(p, dir string) bool { return p == dir || strings.HasPrefix(p, dir+
 
 // ---------- running the implementation (child process) ----------
 
+// c18DecodeNodes runs the real ArchiveDecoder over the archive and lists kind and Name of every node.
+func c18DecodeNodes(catar []byte) string {
+	dec := desync.NewArchiveDecoder(bytes.NewReader(catar))
+	var toks []string
+	status := "end"
+	for {
+		n, err := dec.Next()
+		if err != nil {
+			status = "error"
+			break
+		}
+		if n == nil {
+			break
+		}
+		switch v := n.(type) {
+		case desync.NodeDirectory:
+			toks = append(toks, "d:"+vh.Hex([]byte(v.Name)))
+		case desync.NodeFile:
+			toks = append(toks, "f:"+vh.Hex([]byte(v.Name)))
+		case desync.NodeSymlink:
+			toks = append(toks, "l:"+vh.Hex([]byte(v.Name)))
+		case desync.NodeDevice:
+			toks = append(toks, "v:"+vh.Hex([]byte(v.Name)))
+		}
+	}
+	if len(toks) == 0 {
+		return status + " -"
+	}
+	return status + " " + strings.Join(toks, ",")
+}
+
 const c18HangAfter = 4 * time.Second
 
 // c18Timed runs f; a run that does not come back is a hang (the goroutine stays stuck in
@@ -341,6 +377,7 @@ func c18RunOne(work string, i int, c *c18Case) {
 		return
 	}
 	catar := c18Encode(c18Subst(c.Elems, sb))
+	c.Nodes = c18DecodeNodes(catar)
 	before := c18Snapshot(moat)
 	opts := desync.LocalFSOptions{NoSameOwner: c.NoSameOwner, NoSamePermissions: c.NoSamePerms}
 	aux := filepath.Join(work, "aux"+strconv.Itoa(i)) // store / index / catar: outside the snapshot
@@ -469,7 +506,7 @@ func c18RunOne(work string, i int, c *c18Case) {
 	sort.Strings(c.Outside)
 	c.After = c.After[:0]
 	for p, a := range after {
-		n := c18Node{P: p, K: a.Kind}
+		n := c18Node{P: p, K: a.Kind, Perm: a.Perm, UID: a.UID, GID: a.GID, MTime: a.MTime}
 		switch a.Kind {
 		case "f":
 			n.S = a.Data
@@ -491,6 +528,7 @@ type c18Line struct {
 	DirTime []string  `json:"dirtime"`
 	After   []c18Node `json:"after"`
 	Moat    string    `json:"moat"`
+	Nodes   string    `json:"nodes"`
 }
 
 func c18HexAll(l []string) []string {
@@ -524,6 +562,7 @@ func c18Child(a vh.Args) error {
 	defer out.Close()
 	base, _ := strconv.Atoi(os.Getenv("VH_C18_BASE"))
 	work := os.Getenv("VH_C18_WORK")
+	syscall.Umask(0) // mkdir(0777) / open(0666) / mknod(mode|0666) give exactly these modes
 	// confine the child physically: hostile links and names are resolved inside the scratch area
 	if err := syscall.Chroot(work); err == nil {
 		os.Chdir("/")
@@ -539,9 +578,10 @@ func c18Child(a vh.Args) error {
 		}
 		after := make([]c18Node, len(c.After))
 		for k, n := range c.After {
-			after[k] = c18Node{P: hx(n.P), K: n.K, S: n.S}
+			after[k] = n
+			after[k].P = hx(n.P)
 		}
-		line, _ := json.Marshal(c18Line{I: i, Class: c.Class, Err: hx(c.Err), Outside: c18HexAll(c.Outside), Changed: c18HexAll(c.Changed), DirTime: c18HexAll(c.DirTime), After: after, Moat: c.Moat})
+		line, _ := json.Marshal(c18Line{I: i, Class: c.Class, Err: hx(c.Err), Outside: c18HexAll(c.Outside), Changed: c18HexAll(c.Changed), DirTime: c18HexAll(c.DirTime), After: after, Moat: c.Moat, Nodes: c.Nodes})
 		out.Write(append(line, '\n'))
 		if c.Class == "hang" {
 			out.Close()
@@ -589,7 +629,7 @@ func c18RunBatch(a vh.Args, cases []*c18Case, base int) error {
 				var l c18Line
 				if json.Unmarshal(sc.Bytes(), &l) == nil {
 					c := cases[start+l.I]
-					c.Class, c.Err, c.Outside, c.Changed, c.DirTime, c.After, c.Moat = l.Class, unhx(l.Err), c18UnhexAll(l.Outside), c18UnhexAll(l.Changed), c18UnhexAll(l.DirTime), l.After, l.Moat
+					c.Class, c.Err, c.Outside, c.Changed, c.DirTime, c.After, c.Moat, c.Nodes = l.Class, unhx(l.Err), c18UnhexAll(l.Outside), c18UnhexAll(l.Changed), c18UnhexAll(l.DirTime), l.After, l.Moat, l.Nodes
 					for k := range c.After {
 						c.After[k].P = unhx(c.After[k].P)
 					}
@@ -667,21 +707,21 @@ func c18Judge(a vh.Args, o *vh.Oracle, r *vh.Result, c *c18Case) error {
 	}
 	sb := dest + "/sb"
 	dest = sb + "/dest"
-	fsTok := []string{"d:" + hx(dest), "d:" + hx(sb+"/outside"), "d:" + hx(sb+"/outside/sub"), "d:" + hx(sb+"/sib"),
-		"f:" + hx(sb+"/outside/x") + ":" + hx("SENTINEL-x"), "f:" + hx(sb+"/outside/sub/y") + ":" + hx("SENTINEL-y"),
-		"f:" + hx(sb+"/sentinel") + ":" + hx("SENTINEL"), "f:" + hx(sb+"/sib/f") + ":" + hx("SENTINEL-f"),
-		"f:" + hx(c.Moat+"/top") + ":" + hx("SENTINEL-top"), "f:" + hx(c.Moat+"/m1/x") + ":" + hx("SENTINEL-m1x"),
+	fsTok := []string{"d:" + hx(sb) + ":493", "d:" + hx(dest) + ":493", "d:" + hx(sb+"/outside") + ":493", "d:" + hx(sb+"/outside/sub") + ":493", "d:" + hx(sb+"/sib") + ":493",
+		"f:" + hx(sb+"/outside/x") + ":420:" + hx("SENTINEL-x"), "f:" + hx(sb+"/outside/sub/y") + ":420:" + hx("SENTINEL-y"),
+		"f:" + hx(sb+"/sentinel") + ":420:" + hx("SENTINEL"), "f:" + hx(sb+"/sib/f") + ":420:" + hx("SENTINEL-f"),
+		"f:" + hx(c.Moat+"/top") + ":420:" + hx("SENTINEL-top"), "f:" + hx(c.Moat+"/m1/x") + ":420:" + hx("SENTINEL-m1x"),
 		"l:" + hx(sb+"/lnk") + ":" + hx("outside")}
 	for _, pr := range c.Pre {
 		switch pr.Kind {
 		case "d":
-			fsTok = append(fsTok, "d:"+hx(dest+"/"+pr.Path))
+			fsTok = append(fsTok, "d:"+hx(dest+"/"+pr.Path)+":493")
 		case "f":
 			s := pr.S
 			if s == "" {
 				s = "-"
 			}
-			fsTok = append(fsTok, "f:"+hx(dest+"/"+pr.Path)+":"+s)
+			fsTok = append(fsTok, "f:"+hx(dest+"/"+pr.Path)+":420:"+s)
 		case "l":
 			fsTok = append(fsTok, "l:"+hx(dest+"/"+pr.Path)+":"+hx(strings.ReplaceAll(unhx(pr.S), "@SB@", sb)))
 		}
@@ -692,6 +732,29 @@ func c18Judge(a vh.Args, o *vh.Oracle, r *vh.Result, c *c18Case) error {
 	}
 	if c.NoSamePerms {
 		oo = oo[:1] + "1"
+	}
+	if c.Nodes != "" {
+		nans, err := o.Call("c18.nodes", "fixed", c18Tokens(c18Subst(c.Elems, sb)))
+		if err != nil {
+			return err
+		}
+		r.Corr()
+		var mt []string
+		np := strings.SplitN(nans, " ", 2)
+		if len(np) == 2 && np[1] != "-" {
+			for _, t := range strings.Split(np[1], ",") {
+				f := strings.Split(t, ":")
+				mt = append(mt, f[0]+":"+f[1])
+			}
+		}
+		mnodes := np[0] + " -"
+		if len(mt) > 0 {
+			mnodes = np[0] + " " + strings.Join(mt, ",")
+		}
+		if mnodes != c.Nodes {
+			r.Fail("corr", "corr:C18/nodes", fmt.Sprintf("%s: ArchiveDecoder yields %q, model %q", c.Shape, c.Nodes, mnodes), c)
+			return nil
+		}
 	}
 	ans, err := o.Call("c18.untar", "fixed", oo, hx(dest), strings.Join(fsTok, ","), c18Tokens(c18Subst(c.Elems, sb)))
 	if err != nil {
@@ -728,16 +791,21 @@ func c18Judge(a vh.Args, o *vh.Oracle, r *vh.Result, c *c18Case) error {
 				continue
 			}
 			n := c18Node{P: p, K: f[0]}
+			num := func(i int) uint64 { v, _ := strconv.ParseUint(f[i], 10, 64); return v }
 			switch f[0] {
+			case "d":
+				n.Perm, n.UID, n.GID = uint32(num(2)&07777), uint32(num(3)), uint32(num(4))
 			case "f":
-				mode, _ := strconv.ParseUint(f[2], 10, 64)
+				mode := num(2)
+				n.Perm, n.UID, n.GID, n.MTime = uint32(mode&07777), uint32(num(3)), uint32(num(4)), int64(num(5))
 				if t := mode & sIFMT; t != 0 && t != sIFREG {
 					n.K = "v"
-				} else if f[3] != "-" {
-					n.S = f[3]
+				} else if f[6] != "-" {
+					n.S = f[6]
 				}
 			case "l":
-				n.S = f[2]
+				n.UID, n.GID = uint32(num(2)), uint32(num(3))
+				n.S = f[4]
 			}
 			model[p] = n
 		}
@@ -750,8 +818,17 @@ func c18Judge(a vh.Args, o *vh.Oracle, r *vh.Result, c *c18Case) error {
 	for p, m := range model {
 		if i, ok := impl[p]; !ok {
 			diff = append(diff, "missing in implementation: "+p)
-		} else if i != m {
+		} else if i.K != m.K || i.S != m.S {
 			diff = append(diff, fmt.Sprintf("%s: model %s %s, implementation %s %s", p, m.K, m.S, i.K, i.S))
+		} else if c18Under(p, sb) {
+			// owner everywhere, permission bits except on links, mtime of non-directories the run set
+			if i.UID != m.UID || i.GID != m.GID {
+				diff = append(diff, fmt.Sprintf("%s: owner model %d:%d, implementation %d:%d", p, m.UID, m.GID, i.UID, i.GID))
+			} else if m.K != "l" && i.Perm != m.Perm {
+				diff = append(diff, fmt.Sprintf("%s: mode model %o, implementation %o", p, m.Perm, i.Perm))
+			} else if (m.K == "f" || m.K == "v") && m.MTime != 0 && m.MTime != i.MTime {
+				diff = append(diff, fmt.Sprintf("%s: mtime model %d, implementation %d", p, m.MTime, i.MTime))
+			}
 		}
 	}
 	for p := range impl {
